@@ -6,3 +6,16 @@ impl Code {
 //@extract h3/src/error/codes.rs :: - :: constmacro codes
 //@end
 }
+// the repository's constants are the RFC 9114 §8.1 / RFC 9204 §6 / RFC 9297 numbers (a changed constant fails here, in
+// every unit that speaks about error codes)
+pub proof fn lemma_code_values_are_the_rfc_numbers()
+    ensures
+        Code::H3_DATAGRAM_ERROR.code == 0x33,
+        Code::H3_NO_ERROR.code == 0x100, Code::H3_GENERAL_PROTOCOL_ERROR.code == 0x101, Code::H3_INTERNAL_ERROR.code == 0x102,
+        Code::H3_STREAM_CREATION_ERROR.code == 0x103, Code::H3_CLOSED_CRITICAL_STREAM.code == 0x104,
+        Code::H3_FRAME_UNEXPECTED.code == 0x105, Code::H3_FRAME_ERROR.code == 0x106, Code::H3_EXCESSIVE_LOAD.code == 0x107,
+        Code::H3_ID_ERROR.code == 0x108, Code::H3_SETTINGS_ERROR.code == 0x109, Code::H3_MISSING_SETTINGS.code == 0x10a,
+        Code::H3_REQUEST_REJECTED.code == 0x10b, Code::H3_REQUEST_CANCELLED.code == 0x10c, Code::H3_REQUEST_INCOMPLETE.code == 0x10d,
+        Code::H3_MESSAGE_ERROR.code == 0x10e, Code::H3_CONNECT_ERROR.code == 0x10f, Code::H3_VERSION_FALLBACK.code == 0x110,
+        Code::QPACK_DECOMPRESSION_FAILED.code == 0x200, Code::QPACK_ENCODER_STREAM_ERROR.code == 0x201, Code::QPACK_DECODER_STREAM_ERROR.code == 0x202,
+{}
